@@ -30,8 +30,8 @@ def facts : List InitFact := [
     imports := [3], goList := [3] },
   -- c12f/t0/yank.init
   { id := 5, hasPatchFn := false, chained := false,
-    toks := [.loadGuard, .brGuard .ret .body, .storeGuard, .callInit 4, .callInit 2, .act, .brRet],
-    imports := [4, 2], goList := [2, 4] },
+    toks := [.loadGuard, .brGuard .ret .body, .storeGuard, .callInit 2, .callInit 4, .act, .brRet],
+    imports := [2, 4], goList := [2, 4] },
   -- c12f/t0/kilo.init (work-free package)
   { id := 6, hasPatchFn := false, chained := false,
     toks := [.loadGuard, .brGuard .ret .body, .storeGuard, .brRet],
@@ -42,12 +42,12 @@ def facts : List InitFact := [
     imports := [1, 6], goList := [1, 6] },
   -- c12f/t0/zeta.init
   { id := 8, hasPatchFn := false, chained := false,
-    toks := [.loadGuard, .brGuard .ret .body, .storeGuard, .callInit 2, .callInit 4, .callInit 7, .act, .brRet],
-    imports := [2, 4, 7], goList := [2, 4, 7] },
+    toks := [.loadGuard, .brGuard .ret .body, .storeGuard, .callInit 7, .callInit 2, .callInit 4, .act, .brRet],
+    imports := [7, 2, 4], goList := [2, 4, 7] },
   -- c12f/t0.init
   { id := 9, hasPatchFn := false, chained := false,
-    toks := [.loadGuard, .brGuard .ret .body, .storeGuard, .callInit 5, .callInit 8, .callInit 1, .callInit 0, .callInit 2, .act, .brRet],
-    imports := [5, 8, 1, 0, 2], goList := [0, 1, 2, 5, 8] },
+    toks := [.loadGuard, .brGuard .ret .body, .storeGuard, .callInit 2, .callInit 0, .callInit 1, .callInit 5, .callInit 8, .act, .brRet],
+    imports := [2, 0, 1, 5, 8], goList := [0, 1, 2, 5, 8] },
   -- math/bits.init (std package compiled by llgo)
   { id := 0, hasPatchFn := false, chained := false,
     toks := [.loadGuard, .brGuard .ret .body, .storeGuard, .act, .brRet],
